@@ -46,7 +46,8 @@ def print_digests(only, tier, seed, seeds, workers):
     """One line per (property, index): digest of plan + result."""
     props = [only.upper()] if only else built_props()
     for pid in props:
-        tasks = [(pid, tier, seed, i) for i in range(seeds)]
+        # indices spread over the enumerated strata and the sampled part
+        tasks = [(pid, tier, seed, i * 97) for i in range(seeds)]
         if workers <= 1:
             results = [_digest_one(t) for t in tasks]
         else:
